@@ -115,36 +115,63 @@ def sha256(text):
     return hashlib.sha256(text.encode()).hexdigest()
 
 
+def _group_rss_gb(pgid):
+    """Resident memory of every process in the group, in GB (RLIMIT_AS is useless here: CBMC's solvers reserve far
+    more address space than they touch)."""
+    total = 0
+    try:
+        for pid in os.listdir("/proc"):
+            if not pid.isdigit():
+                continue
+            try:
+                with open("/proc/%s/stat" % pid) as f:
+                    st = f.read()
+                fields = st[st.rindex(")") + 2:].split()
+                if int(fields[2]) != pgid:   # pgrp
+                    continue
+                total += int(fields[21]) * 4096   # rss pages
+            except (OSError, ValueError, IndexError):
+                continue
+    except OSError:
+        pass
+    return total / float(1 << 30)
+
+
 def run(cmd, cwd=None, env=None, timeout=None, mem_gb=None, log=None):
-    """Run a command, capture combined output.  Returns (rc, output, wall_s).
-    rc == -9 on timeout."""
+    """Run a command in its own process group, capture combined output.  Returns (rc, output, wall_s).
+    rc == -9 on timeout, -8 when the group's resident memory exceeded mem_gb."""
     e = dict(os.environ)
     e["CARGO_NET_OFFLINE"] = "true"
     if env:
         e.update(env)
-    pre = None
-    if mem_gb:
-        import resource
-
-        def pre():
-            lim = int(mem_gb * (1 << 30))
-            resource.setrlimit(resource.RLIMIT_AS, (lim, lim))
-            os.setsid()
-    else:
-        pre = os.setsid
     t0 = time.time()
     p = subprocess.Popen(cmd, cwd=cwd, env=e, stdout=subprocess.PIPE, stderr=subprocess.STDOUT,
-                         preexec_fn=pre, text=True, errors="replace")
-    try:
-        out, _ = p.communicate(timeout=timeout)
-        rc = p.returncode
-    except subprocess.TimeoutExpired:
-        try:
-            os.killpg(p.pid, signal.SIGKILL)
-        except ProcessLookupError:
-            pass
-        out, _ = p.communicate()
+                         preexec_fn=os.setsid, text=True, errors="replace")
+    import threading
+    killed = {"why": None}
+
+    def watchdog():
+        while p.poll() is None:
+            time.sleep(2)
+            if timeout and time.time() - t0 > timeout:
+                killed["why"] = "timeout"
+            elif mem_gb and _group_rss_gb(p.pid) > mem_gb:
+                killed["why"] = "memory"
+            if killed["why"]:
+                try:
+                    os.killpg(p.pid, signal.SIGKILL)
+                except ProcessLookupError:
+                    pass
+                return
+
+    th = threading.Thread(target=watchdog, daemon=True)
+    th.start()
+    out, _ = p.communicate()
+    rc = p.returncode
+    if killed["why"] == "timeout":
         rc = -9
+    elif killed["why"] == "memory":
+        rc = -8
     wall = time.time() - t0
     if log:
         with open(log, "w") as f:
